@@ -397,11 +397,16 @@ def in_context(ctx, pool):
 
     names = sorted(OPS)
 
+    # directed first: every instruction x every operand position in the pinned-on-sibling-paths shape
+    forced = [(n, j) for n in names for j in range(OPS[n][1])]
+
     def gen(rng):
-        name = rng.choice(names)
+        pinned = bool(forced)
+        name, xpos = forced.pop() if forced else (rng.choice(names), None)
         _, arity = OPS[name]
         c = rng.choice([0, 1, 2, 5, 31, 32, 255, 256]) if rng.random() < 0.7 else rng.choice(pool) % W
-        xpos = rng.randrange(arity)
+        if xpos is None:
+            xpos = rng.randrange(arity)
         x = [("push", 4), "CALLDATALOAD"]
         if rng.random() < 0.3:
             x = x + [("push", 0xFF), "AND"]
@@ -418,6 +423,18 @@ def in_context(ctx, pool):
             body += o
         body += [name, ("push", 0), "MSTORE", ("push", 0x20), ("push", 0), "RETURN"]
         learn = x + [("push", c), "EQ", ("ref", "A"), "JUMPI", "STOP", ("label", "A"), "STOP"]
+        if pinned or rng.random() < 0.34:
+            # the operand is pinned to a DIFFERENT constant on each of two sibling paths (x == c on one, x == c2 on the other:
+            # two term->constant substitutions of the same size), and the instruction executes on both with x as operand
+            c2 = rng.choice([v for v in (0, 1, 2, 3, 5, 30, 31, 32, 33, 255, 256) if v != c])
+            items = (x + [("push", c), "EQ", ("ref", "A"), "JUMPI"] + x + [("push", c2), "EQ", ("ref", "B"), "JUMPI", "STOP"]
+                     + [("label", "A")] + body + [("label", "B")] + body)
+            if rng.random() < 0.5:   # a third arm so that the instruction runs three times on the same term
+                c3 = rng.choice([v for v in (0, 1, 2, 4, 31, 32) if v not in (c, c2)])
+                items = (x + [("push", c), "EQ", ("ref", "A"), "JUMPI"] + x + [("push", c2), "EQ", ("ref", "B"), "JUMPI"]
+                         + x + [("push", c3), "EQ", ("ref", "C"), "JUMPI", "STOP"]
+                         + [("label", "A")] + body + [("label", "B")] + body + [("label", "C")] + body)
+            return Scenario({MAIN: asm.assemble(items)}, nargs=3), {f"ctx:{name}": 1, "ctx:pinned-on-sibling-paths": 1, f"ctx:xpos{xpos}": 1}
         if rng.random() < 0.5:
             # the pending sibling is the taken side of the first JUMPI
             items = [("push", 0x24), "CALLDATALOAD", ("ref", "B"), "JUMPI"] + learn + [("label", "B")] + body
@@ -428,7 +445,7 @@ def in_context(ctx, pool):
         return Scenario({MAIN: asm.assemble(items)}, nargs=3), {f"ctx:{name}": 1, f"ctx:{shape}": 1, f"ctx:xpos{xpos}": 1}
 
     before = len(ctx.violations)
-    sevmcheck.run(ctx, "C01", {}, n_scenarios=ctx.scale(60, 1500), n_random_inputs=ctx.scale(6, 12),
+    sevmcheck.run(ctx, "C01", {}, n_scenarios=len(forced) + ctx.scale(40, 1500), n_random_inputs=ctx.scale(6, 12),
                   cfgs=[{}], gen=gen, corpus=False)
     for v in ctx.violations[before:]:
         v["key"] = "in-context|" + v["key"]
